@@ -1,6 +1,7 @@
 // C09 — behaviour depends on each connection's byte stream, not on its segmentation.
 // Metamorphic: one session, many schedules (read chunking, split deliveries across event-loop iterations, prefixes of the next
-// message of another connection arriving early, junk in the unused part of the read buffer) -> identical output everywhere.
+// message of another connection arriving early, junk in the unused part of the read buffer, consecutive messages of distinct
+// connections grouped into one readiness batch) -> identical output everywhere.
 // Direct: zero length is skipped, over-long length ends the connection, a message that is not a complete JSON text by itself is rejected.
 #include "../fw/rcmain.hpp"
 using namespace drv;
@@ -37,9 +38,10 @@ static rc::Gen<Op> c09_op()
 
 static rc::Gen<Scenario> c09_gen()
 {
-	auto variant = rc::gen::apply([](int d, int c, int j, int e) { return std::vector<int>{d, c, j, e}; },
+	auto variant = rc::gen::apply([](int d, int c, int j, int e, int b) { return std::vector<int>{d, c, j, e, b}; },
 	                              rc::gen::weightedElement<int>({{2, 0}, {1, 1}, {1, 2}, {1, 3}, {1, 4}, {1, 7}}), rc::gen::weightedElement<int>({{3, 0}, {2, 1}, {1, 2}, {1, 3}, {1, 5}, {1, 17}}),
-	                              rng(-1, 7), rc::gen::weightedElement<int>({{2, 0}, {1, 1}, {1, 2}, {1, 3}}));
+	                              rng(-1, 7), rc::gen::weightedElement<int>({{2, 0}, {1, 1}, {1, 2}, {1, 3}}),
+	                              rc::gen::weightedElement<int>({{2, 0}, {1, 1}, {1, 2}, {1, 3}, {1, 4}}));
 	return rc::gen::apply([](std::vector<int> transports, std::vector<Op> ops, std::vector<std::vector<int>> variants) {
 		Scenario sc;
 		{ Op o; o.kind = CONNECT; o.a = 0; sc.ops.push_back(o); }
@@ -61,7 +63,7 @@ int main(int argc, char **argv)
 	c.opt.replica_check = false;
 	c.nontrivial = [](const Verdict &vd, const Scenario &sc) {
 		auto g = [&](const char *k) { auto it = vd.stat.find(k); return it == vd.stat.end() ? 0L : it->second; };
-		bool varied = false; for (auto &v : sc.variants) if (v[0] || v[1] || v[3]) varied = true;
+		bool varied = false; for (auto &v : sc.variants) if (v[0] || v[1] || v[3] || (v.size() > 4 && v[4])) varied = true;
 		return varied && g("msgs_sent") >= 3;
 	};
 	c.extra = [](Campaign &cc, const Scenario &base, const CaseResult &r0) {
@@ -69,12 +71,13 @@ int main(int argc, char **argv)
 		for (auto &v : base.variants) {
 			if (v.size() < 4) continue;
 			Scenario sv = base; sv.variants.clear();
-			sv.dribble = v[0]; sv.chunk_all = v[1]; sv.junk_all = v[2]; sv.early_prefix = v[3];
-			if (sv.dribble == base.dribble && sv.chunk_all == base.chunk_all && sv.junk_all == base.junk_all && sv.early_prefix == base.early_prefix) continue;
+			sv.dribble = v[0]; sv.chunk_all = v[1]; sv.junk_all = v[2]; sv.early_prefix = v[3]; sv.batching = v.size() > 4 ? v[4] : 0;
+			if (sv.batching) sv.early_prefix = 0; // (the two schedule dimensions are explored separately)
+			if (sv.dribble == base.dribble && sv.chunk_all == base.chunk_all && sv.junk_all == base.junk_all && sv.early_prefix == base.early_prefix && sv.batching == base.batching) continue;
 			CaseResult rv = run_case(sv, cc.opt, cc.setup);
 			cc.evaluations++;
 			if (rv.timed_out) { cc.timeouts++; continue; }
-			std::string tag = "schedule {dribble=" + std::to_string(v[0]) + ",chunk=" + std::to_string(v[1]) + ",junk=" + std::to_string(v[2]) + ",early_prefix=" + std::to_string(v[3]) + "}";
+			std::string tag = "schedule {dribble=" + std::to_string(v[0]) + ",chunk=" + std::to_string(v[1]) + ",junk=" + std::to_string(v[2]) + ",early_prefix=" + std::to_string(v[3]) + ",batching=" + std::to_string(sv.batching) + "}";
 			if (rv.crashed) { out.push_back({rv.crash_sig, tag + "\n" + rv.stderr_text.substr(0, 3000)}); break; }
 			for (auto &x : rv.vd.v) if (x.rule.compare(0, 13, "inconclusive/") != 0 && cc.rule_relevant(x.rule)) { out.push_back({x.rule, tag + ": " + x.detail}); break; }
 			if (!out.empty()) break;
